@@ -17,7 +17,12 @@ from . import c10life
 THEOREMS = ["ZI.Order.C12_twin", "ZI.Order.c_eq_py", "ZI.Adapt.C14_twin", "ZI.Adapt.callC_eq_callPy",
             # the lookup entry points: C composition (_adapter_hook -> _lookup1 -> _lookup, VB_*) = Python composition, all inputs, cache left behind included
             "ZI.LookupTwin.lookup_twin", "ZI.LookupTwin.lookup1_twin", "ZI.LookupTwin.adapterHook_twin", "ZI.LookupTwin.verifying_twin",
-            "ZI.LookupTwin.lookup1_eq_lookup", "ZI.LookupTwin.nonstring_name_refused"] + spectwin.THEOREMS
+            "ZI.LookupTwin.lookup1_eq_lookup", "ZI.LookupTwin.nonstring_name_refused",
+            # a lazy `required` whose iteration mutates the registry (both twins resolve it before they fetch the cache, repair 7ee6ae2);
+            # lookupAll / subscriptions twins
+            "ZI.LookupTwin.lazy_twin", "ZI.LookupTwin.lazy_nonstring_untouched", "ZI.LookupTwin.lazy_fresh", "ZI.LookupTwin.lazy_plain",
+            "ZI.LookupTwin.old_order_plain", "ZI.LookupTwin.old_order_stale", "ZI.LookupTwin.all_twin", "ZI.LookupTwin.all_fresh",
+            "ZI.LookupTwin.all_idem", "ZI.LookupTwin.all_old_order_stale"] + spectwin.THEOREMS
 KNOWN = "eq-foreign-nonstr-name"
 
 
@@ -50,7 +55,7 @@ def streams(rnd, tier):
 
 def check(tier):
     chk = core.Check("C10", tier, level="proof")
-    chk.obligations(THEOREMS, ["f_c = f_py for lookupAll / subscriptions / queryMultiAdapter / subscribers of LookupBase / VerifyingBase (one shared body in both "
+    chk.obligations(THEOREMS, ["f_c = f_py for queryMultiAdapter / subscribers of LookupBase / VerifyingBase (one shared body in both "
                                "implementations) and everything else not named in the theorems: compared with the Python reference by differential execution only"])
     rnd = core.rng("C10")
     fails, known, known2 = [], [], []
